@@ -1,7 +1,8 @@
 (* Model/RustPreciseDiff.v — C06: hand-written model of rust/src/python/helpers.rs :: precise_diff, with its manual offset
    arithmetic exactly as written: truncating / and % on the offset, the `> 60` / `> 24` carry tests (so 60 minutes or 24 hours
    are NOT carried), the day moved by one without any month carry (day 0 / day 32 can appear), the lexicographic field-tuple
-   ordering evaluated AFTER the shifts, total_days taken from the unshifted dates, `is_exact_type_of` for the second operand.
+   ordering evaluated AFTER the shifts, total_days taken from the unshifted dates; both operands are tested with `is_type_of`
+   (a datetime subclass instance is a datetime in either position: finding rs-second-operand-subclass is repaired).
    Executable definitions only.  Tied to the compiled extension by the correspondence run. *)
 From Coq Require Import ZArith List Bool.
 From PV Require Import Lib.PyBase Gen.RustConstants Model.RustHelpers Model.PdBase.
@@ -74,10 +75,10 @@ Definition rs_core (i1 i2 : rsinfo) (sign total_days : Z) : pdiff :=
   mkPD (year_diff * sign) (month_diff * sign) (day_diff * sign) (hour_diff * sign) (minute_diff * sign) (second_diff * sign)
        (micro_diff * sign) (total_days * sign).
 
-(* exact2: is the type of the second operand exactly datetime.datetime (PyDateTime::is_exact_type_of_bound)? *)
-Definition rs_precise_diff (d1 d2 : pdt) (exact2 : bool) : pdiff :=
+(* p_is_dt is `PyDateTime::is_type_of_bound` (datetime.datetime or any subclass, e.g. pendulum.DateTime), for BOTH operands *)
+Definition rs_precise_diff (d1 d2 : pdt) : pdiff :=
   let in_same_tz := (rs_tz d1 =? rs_tz d2) && negb (rs_tz d1 =? 0) in
   let total_days := rs_day_number (p_year d2) (p_month d2) (p_day d2) - rs_day_number (p_year d1) (p_month d1) (p_day d1) in
   let i1 := rs_info d1 (p_is_dt d1) in_same_tz total_days in
-  let i2 := rs_info d2 (p_is_dt d2 && exact2) in_same_tz total_days in
+  let i2 := rs_info d2 (p_is_dt d2) in_same_tz total_days in
   if rs_gtb i1 i2 then rs_core i2 i1 (-1) (- total_days) else rs_core i1 i2 1 total_days.
